@@ -32,7 +32,12 @@ def oracle(case):
         return "illtyped:%s" % e
     if ref[0] != "ok":
         return ref[0]
-    items, err = xc.run_pytezos(inputs, code, env)
+    if case.get("session") is not None:  # REPL route: the program follows cells that failed (rolled-back state must not leak)
+        items, err = xc.run_pytezos_session(inputs, code, env, case["session"])
+        if items == "skip":
+            return "session-skip"
+    else:
+        items, err = xc.run_pytezos(inputs, code, env)
     if err is not None:
         return "pytezos-failed"  # C01's subject
     known = "MAP-empty-type-change" in xc.LAST_TRACE
@@ -110,7 +115,10 @@ def oracle_contract(case):
 @st.composite
 def cases(draw, size, depth):
     prog = draw(gp.programs(n_inputs=(1, 3), size=size, depth=depth, profile=draw(st.sampled_from(["core", "collections", "collections", "tickets", "tickets", "combs", "combs"]))))
-    return {"inputs": prog["inputs"], "code": prog["code"], "env": xc.env_to_json(draw(gp.env_strategy()))}
+    case = {"inputs": prog["inputs"], "code": prog["code"], "env": xc.env_to_json(draw(gp.env_strategy()))}
+    if draw(st.integers(0, 4)) == 0:
+        case["session"] = draw(st.lists(st.sampled_from(xc.FAILING_CELLS), min_size=1, max_size=2))
+    return case
 
 
 @st.composite
